@@ -17,15 +17,16 @@ theorem noWs_tail {c : UInt8} {t : Bytes} (h : NoWs (c :: t)) : NoWs t :=
   fun d hd => h d (List.mem_cons_of_mem _ hd)
 
 /-- once a pad character has been seen, only pad characters can follow, each taking two bits -/
-theorem pad_tail (t : Bytes) : ∀ ctx ctx' out, 1 ≤ ctx.padding → ctx.padding ≤ 3 → DInv ctx → NoWs t →
-    decodeUpdate ctx t = (ctx', out, .ok) →
-    out = [] ∧ t = List.replicate t.length 61 ∧ ctx'.padding = ctx.padding + t.length ∧ ctx'.bits + 2 * t.length = ctx.bits := by
+theorem pad_tail (lim : Nat) (hlim : lim ≤ 3) (t : Bytes) : ∀ ctx ctx' out, 1 ≤ ctx.padding → ctx.padding ≤ lim → DInv ctx → NoWs t →
+    decodeUpdate lim ctx t = (ctx', out, .ok) →
+    out = [] ∧ t = List.replicate t.length 61 ∧ ctx'.padding = ctx.padding + t.length ∧ ctx'.bits + 2 * t.length = ctx.bits ∧
+      ctx'.padding ≤ lim := by
   induction t with
   | nil =>
     intro ctx ctx' out _ _ _ _ h
     simp only [decodeUpdate, Prod.mk.injEq] at h
     obtain ⟨rfl, rfl, _⟩ := h
-    simp
+    simp [*]
   | cons c cs ih =>
     intro ctx ctx' out hp1 hp3 hinv hws h
     rw [decodeUpdate_cons] at h
@@ -33,23 +34,23 @@ theorem pad_tail (t : Bytes) : ∀ ctx ctx' out, 1 ≤ ctx.padding → ctx.paddi
     · simp [single_invalid hc] at h
     · exact absurd hc (hws c (List.mem_cons_self))
     · rw [single_pad hc] at h
-      by_cases hb : ctx.bits = 0 ∨ ctx.padding > 2
+      by_cases hb : ctx.bits = 0 ∨ ctx.padding ≥ lim
       · simp [hb] at h
       · by_cases hz : ctx.word % 2 ^ ctx.bits ≠ 0
         · simp [hb, hz] at h
         · simp only [hb, hz, ↓reduceIte] at h
           have hb0 : ctx.bits ≠ 0 := fun h0 => hb (Or.inl h0)
-          have hp2 : ctx.padding ≤ 2 := by
-            have : ¬ ctx.padding > 2 := fun h0 => hb (Or.inr h0)
+          have hp2 : ctx.padding < lim := by
+            have : ¬ ctx.padding ≥ lim := fun h0 => hb (Or.inr h0)
             omega
           obtain ⟨h2, h6⟩ := hinv
           have e1 : (ctx.padding + 1) % 256 = ctx.padding + 1 := by omega
           have e2 : (ctx.bits + 256 - 2) % 256 = ctx.bits - 2 := by omega
           rw [e1, e2] at h
           have := ih _ ctx' out (by simp) (by simp; omega) (by simp only [DInv]; omega) (noWs_tail hws) h
-          obtain ⟨r1, r2, r3, r4⟩ := this
+          obtain ⟨r1, r2, r3, r4, r5⟩ := this
           simp only at r3 r4
-          refine ⟨r1, ?_, ?_, ?_⟩
+          refine ⟨r1, ?_, ?_, ?_, r5⟩
           · rw [List.length_cons, List.replicate_succ, ← r2, (table_pad c).mp hc]
           · simp only [List.length_cons]; omega
           · simp only [List.length_cons]; omega
@@ -58,9 +59,9 @@ theorem pad_tail (t : Bytes) : ∀ ctx ctx' out, 1 ≤ ctx.padding → ctx.paddi
       simp [this] at h
 
 /-- first character of a group -/
-theorem pos0 {c : UInt8} {cs : Bytes} {w : Nat} {ctx' : DecCtx} {out : Bytes}
-    (h : decodeUpdate ⟨w, 0, 0⟩ (c :: cs) = (ctx', out, .ok)) (hws : tableAt c ≠ -2) :
-    ∃ v : Nat, v < 64 ∧ tableAt c = (v : Int) ∧ decodeUpdate ⟨wstep w v, 6, 0⟩ cs = (ctx', out, .ok) := by
+theorem pos0 {lim : Nat} {c : UInt8} {cs : Bytes} {w : Nat} {ctx' : DecCtx} {out : Bytes}
+    (h : decodeUpdate lim ⟨w, 0, 0⟩ (c :: cs) = (ctx', out, .ok)) (hws : tableAt c ≠ -2) :
+    ∃ v : Nat, v < 64 ∧ tableAt c = (v : Int) ∧ decodeUpdate lim ⟨wstep w v, 6, 0⟩ cs = (ctx', out, .ok) := by
   rw [decodeUpdate_cons] at h
   rcases char_cases c with hc | hc | hc | ⟨v, hv, hc⟩
   · simp [single_invalid hc] at h
@@ -70,18 +71,18 @@ theorem pos0 {c : UInt8} {cs : Bytes} {w : Nat} {ctx' : DecCtx} {out : Bytes}
     exact ⟨v, hv, hc, h⟩
 
 /-- later characters of a group (bits = 6, 4, 2): a pad character over zero pending bits, or data giving a byte -/
-theorem posk {c : UInt8} {cs : Bytes} {w b : Nat} {ctx' : DecCtx} {out : Bytes} (hb2 : 2 ≤ b) (hb6 : b ≤ 6)
-    (h : decodeUpdate ⟨w, b, 0⟩ (c :: cs) = (ctx', out, .ok)) (hws : tableAt c ≠ -2) :
-    (c = 61 ∧ w % 2 ^ b = 0 ∧ decodeUpdate ⟨w, b - 2, 1⟩ cs = (ctx', out, .ok)) ∨
+theorem posk {lim : Nat} {c : UInt8} {cs : Bytes} {w b : Nat} {ctx' : DecCtx} {out : Bytes} (hlim : 1 ≤ lim) (hb2 : 2 ≤ b) (hb6 : b ≤ 6)
+    (h : decodeUpdate lim ⟨w, b, 0⟩ (c :: cs) = (ctx', out, .ok)) (hws : tableAt c ≠ -2) :
+    (c = 61 ∧ w % 2 ^ b = 0 ∧ decodeUpdate lim ⟨w, b - 2, 1⟩ cs = (ctx', out, .ok)) ∨
     (∃ v : Nat, v < 64 ∧ tableAt c = (v : Int) ∧ ∃ out', out = UInt8.ofNat (wstep w v / 2 ^ (b - 2)) :: out' ∧
-      decodeUpdate ⟨wstep w v, b - 2, 0⟩ cs = (ctx', out', .ok)) := by
+      decodeUpdate lim ⟨wstep w v, b - 2, 0⟩ cs = (ctx', out', .ok)) := by
   rw [decodeUpdate_cons] at h
   rcases char_cases c with hc | hc | hc | ⟨v, hv, hc⟩
   · simp [single_invalid hc] at h
   · exact absurd hc hws
   · left
     rw [single_pad hc] at h
-    have h1 : ¬ (b = 0 ∨ 0 > 2) := by omega
+    have h1 : ¬ (b = 0 ∨ 0 ≥ lim) := by omega
     by_cases hz : w % 2 ^ b ≠ 0
     · simp [hz] at h
     · simp only [h1, hz, ↓reduceIte] at h
@@ -95,13 +96,13 @@ theorem posk {c : UInt8} {cs : Bytes} {w b : Nat} {ctx' : DecCtx} {out : Bytes} 
     have e2 : b + 6 ≥ 8 := by omega
     have e3 : b + 6 - 8 = b - 2 := by omega
     simp only [ne_eq, not_true_eq_false, ↓reduceIte, e1, e2, e3] at h
-    generalize hr : decodeUpdate ⟨(w * 64 + v) % 65536, b - 2, 0⟩ cs = r at h
+    generalize hr : decodeUpdate lim ⟨(w * 64 + v) % 65536, b - 2, 0⟩ cs = r at h
     obtain ⟨c2, o2, k2⟩ := r
     simp only [Prod.mk.injEq] at h
     obtain ⟨rfl, rfl, rfl⟩ := h
     exact ⟨v, hv, hc, o2, rfl, hr⟩
 
-theorem final_nil {ctx ctx' : DecCtx} {out : Bytes} (h : decodeUpdate ctx [] = (ctx', out, .ok)) : ctx' = ctx ∧ out = [] := by
+theorem final_nil {lim : Nat} {ctx ctx' : DecCtx} {out : Bytes} (h : decodeUpdate lim ctx [] = (ctx', out, .ok)) : ctx' = ctx ∧ out = [] := by
   simp only [decodeUpdate, Prod.mk.injEq] at h
   exact ⟨h.1.symm, h.2.1.symm⟩
 
@@ -131,10 +132,12 @@ theorem duo_sextets (w v1 v2 : Nat) (l1 : v1 < 64) (l2 : v2 < 64) (hz : wstep (w
 theorem toNat_ofNat_mod (n : Nat) : (UInt8.ofNat n).toNat = n % 256 := by
   rw [UInt8.toNat_ofNat']
 
-/-- Accepted input without white space that does not end in three pad characters is the
-encode_raw image of the decoded bytes. -/
-theorem sound_aux : ∀ n (t : Bytes), t.length ≤ n → NoWs t → ¬ ([61, 61, 61] <:+ t) →
-    ∀ w ctx' out, decodeUpdate ⟨w, 0, 0⟩ t = (ctx', out, .ok) → ctx'.bits = 0 → t = encodeRaw out := by
+/-- Accepted input without white space is the encode_raw image of the decoded bytes — outright when at
+most two pad characters are let through (lim ≤ 2, lib/base64.cc), and for text that does not end in
+three pad characters otherwise (lim = 3, libnettle). -/
+theorem sound_aux (lim : Nat) (hlim1 : 1 ≤ lim) (hlim3 : lim ≤ 3) : ∀ n (t : Bytes), t.length ≤ n → NoWs t →
+    (lim ≤ 2 ∨ ¬ ([61, 61, 61] <:+ t)) →
+    ∀ w ctx' out, decodeUpdate lim ⟨w, 0, 0⟩ t = (ctx', out, .ok) → ctx'.bits = 0 → t = encodeRaw out := by
   intro n
   induction n with
   | zero =>
@@ -153,25 +156,28 @@ theorem sound_aux : ∀ n (t : Bytes), t.length ≤ n → NoWs t → ¬ ([61, 61
     · obtain ⟨rfl, _⟩ := final_nil hB
       simp at hbits
     have hws2 : NoWs t2 := noWs_tail (noWs_tail hws)
-    rcases posk (by decide) (by decide) hB (hws c2 (by simp)) with ⟨rfl, hz, hC⟩ | ⟨v2, l2, h2, out1, rfl, hC⟩
+    rcases posk hlim1 (by decide) (by decide) hB (hws c2 (by simp)) with ⟨rfl, hz, hC⟩ | ⟨v2, l2, h2, out1, rfl, hC⟩
     · -- "x=": only pads may follow; reaching bits = 0 needs two more: three pads in total
-      have := pad_tail t2 _ ctx' out (by simp) (by simp) (by simp [DInv]) hws2 hC
-      obtain ⟨_, r2, _, r4⟩ := this
+      have := pad_tail lim hlim3 t2 _ ctx' out (by simp) (by simpa using hlim1) (by simp [DInv]) hws2 hC
+      obtain ⟨_, r2, r3, r4, r5⟩ := this
       simp only [hbits, Nat.zero_add] at r4
       have hlen : t2.length = 2 := by omega
-      rw [hlen] at r2
-      exfalso; apply hsuf
-      rw [r2]
-      exact ⟨[c1], rfl⟩
+      rw [hlen] at r2 r3
+      simp only at r3
+      rcases hsuf with hl2 | hsuf
+      · omega
+      · exfalso; apply hsuf
+        rw [r2]
+        exact ⟨[c1], rfl⟩
     simp only [Nat.reduceSub, Nat.reducePow] at hC ⊢
     rcases t2 with _ | ⟨c3, t3⟩
     · obtain ⟨rfl, _⟩ := final_nil hC
       simp at hbits
     have hws3 : NoWs t3 := noWs_tail hws2
-    rcases posk (by decide) (by decide) hC (hws c3 (by simp)) with ⟨rfl, hz, hD⟩ | ⟨v3, l3, h3, out2, rfl, hD⟩
+    rcases posk hlim1 (by decide) (by decide) hC (hws c3 (by simp)) with ⟨rfl, hz, hD⟩ | ⟨v3, l3, h3, out2, rfl, hD⟩
     · -- "xx=" then exactly one more pad
-      have := pad_tail t3 _ ctx' out1 (by simp) (by simp) (by simp [DInv]) hws3 hD
-      obtain ⟨r1, r2, _, r4⟩ := this
+      have := pad_tail lim hlim3 t3 _ ctx' out1 (by simp) (by simpa using hlim1) (by simp [DInv]) hws3 hD
+      obtain ⟨r1, r2, _, r4, _⟩ := this
       simp only [hbits, Nat.zero_add] at r4
       have hlen : t3.length = 1 := by omega
       rw [hlen] at r2
@@ -189,10 +195,10 @@ theorem sound_aux : ∀ n (t : Bytes), t.length ≤ n → NoWs t → ¬ ([61, 61
     · obtain ⟨rfl, _⟩ := final_nil hD
       simp at hbits
     have hws4 : NoWs t4 := noWs_tail hws3
-    rcases posk (by decide) (by decide) hD (hws c4 (by simp)) with ⟨rfl, hz, hE⟩ | ⟨v4, l4, h4, out3, rfl, hE⟩
+    rcases posk hlim1 (by decide) (by decide) hD (hws c4 (by simp)) with ⟨rfl, hz, hE⟩ | ⟨v4, l4, h4, out3, rfl, hE⟩
     · -- "xxx=": nothing may follow
-      have := pad_tail t4 _ ctx' out2 (by simp) (by simp) (by simp [DInv]) hws4 hE
-      obtain ⟨r1, r2, _, r4⟩ := this
+      have := pad_tail lim hlim3 t4 _ ctx' out2 (by simp) (by simpa using hlim1) (by simp [DInv]) hws4 hE
+      obtain ⟨r1, r2, _, r4, _⟩ := this
       simp only [hbits, Nat.zero_add, Nat.sub_self] at r4
       have hlen : t4.length = 0 := by omega
       have : t4 = [] := List.eq_nil_of_length_eq_zero hlen
@@ -207,11 +213,14 @@ theorem sound_aux : ∀ n (t : Bytes), t.length ≤ n → NoWs t → ¬ ([61, 61
           alpha_of_data h3 (x := (UInt8.ofNat (wstep (wstep (wstep w v1) v2) v3 / 4)).toNat <<< 2)
             (by rw [toNat_ofNat_mod, Nat.shiftLeft_eq]; exact q.2.2)]
     · -- a full group, then the rest
-      have hsuf4 : ¬ ([61, 61, 61] <:+ t4) := by
-        intro hs
-        apply hsuf
-        obtain ⟨p, hp⟩ := hs
-        exact ⟨c1 :: c2 :: c3 :: c4 :: p, by simp [hp]⟩
+      have hsuf4 : lim ≤ 2 ∨ ¬ ([61, 61, 61] <:+ t4) := by
+        rcases hsuf with hl2 | hsuf
+        · exact Or.inl hl2
+        · right
+          intro hs
+          apply hsuf
+          obtain ⟨p, hp⟩ := hs
+          exact ⟨c1 :: c2 :: c3 :: c4 :: p, by simp [hp]⟩
       simp only [Nat.sub_self, Nat.pow_zero, Nat.div_one] at hE ⊢
       have hrec := ih t4 (by simp only [List.length_cons] at hl; omega) hws4 hsuf4 _ ctx' out3 hE hbits
       have q := quad_sextets w v1 v2 v3 v4 l1 l2 l3 l4
